@@ -19,6 +19,7 @@ package override
 import (
 	"cmp"
 	"fmt"
+	"reflect"
 	"strings"
 
 	"github.com/compose-spec/compose-go/v2/tree"
@@ -131,7 +132,7 @@ func mergeLogging(c any, o any, p tree.Path) (any, error) {
 	// we override logging config if source and override have the same driver set, or none
 	d, ok1 := other["driver"]
 	o, ok2 := config["driver"]
-	if d == o || !ok1 || !ok2 {
+	if !ok1 || !ok2 || reflect.DeepEqual(d, o) {
 		return mergeMappings(config, other, p)
 	}
 	return other, nil
@@ -188,7 +189,9 @@ func mergeExtraHosts(c any, o any, _ tree.Path) (any, error) {
 	// Rewrite content of left slice to remove duplicate elements
 	i := 0
 	for _, v := range left {
-		if !slices.Contains(right, v) {
+		// elements are host:ip strings in a valid document; whatever else is found here (validation runs
+		// later) must not be compared with ==, lists and mappings are not comparable
+		if !slices.ContainsFunc(right, func(e any) bool { return reflect.DeepEqual(e, v) }) {
 			left[i] = v
 			i++
 		}
@@ -263,10 +266,10 @@ func mergeIPAMConfig(c any, o any, path tree.Path) (any, error) {
 			if err != nil {
 				return nil, err
 			}
-			if left["subnet"] != right["subnet"] {
+			if !reflect.DeepEqual(left["subnet"], right["subnet"]) {
 				// check if left is already in ipamConfigs, add it if not and continue with the next config
 				if !slices.ContainsFunc(ipamConfigs, func(a any) bool {
-					return a.(map[string]any)["subnet"] == left["subnet"]
+					return reflect.DeepEqual(a.(map[string]any)["subnet"], left["subnet"])
 				}) {
 					ipamConfigs = append(ipamConfigs, left)
 					continue
@@ -278,7 +281,7 @@ func mergeIPAMConfig(c any, o any, path tree.Path) (any, error) {
 			}
 			// find index of potential previous config with the same subnet in ipamConfigs
 			indexIfExist := slices.IndexFunc(ipamConfigs, func(a any) bool {
-				return a.(map[string]any)["subnet"] == merged["subnet"]
+				return reflect.DeepEqual(a.(map[string]any)["subnet"], merged["subnet"])
 			})
 			// if a previous config is already in ipamConfigs, replace it
 			if indexIfExist >= 0 {
